@@ -361,15 +361,19 @@ func orderedLocals(fn *ssa.Function) []localVar {
 	isParam := map[string]bool{}
 	for _, p := range fn.Params {
 		isParam[p.Name()] = true
+		out = append(out, localVar{p.Name(), "param:" + typeName(p.Type())})
 	}
 	for _, a := range as {
-		if isParam[a.Comment] {
+		if isParam[a.Comment] || compilerTemp[a.Comment] {
 			continue
 		}
 		out = append(out, localVar{a.Comment, typeName(a.Type())})
 	}
 	return out
 }
+
+// allocations go/ssa introduces for literals and variadic calls (not variables of the source)
+var compilerTemp = map[string]bool{"complit": true, "slicelit": true, "varargs": true, "makeslice": true, "new": true, "mapliteral": true, "rangeindex": true}
 
 func (e *engine) snapshotFor(name string) []localVar {
 	if e.localsSnap == nil {
@@ -459,4 +463,32 @@ func (e *engine) tryPositionalRename(fn *ssa.Function, blk *block) *fnResult {
 		o.prebaked = true
 	}
 	return r2
+}
+
+// paramRenames: parameters of fn whose names differ from the snapshot at the same position with the same type
+// (old name -> current name); used when the contract of a callee with renamed parameters is applied at a call site.
+func (e *engine) paramRenames(fn *ssa.Function) map[string]string {
+	old := e.snapshotFor(canonName(fn))
+	if len(old) == 0 {
+		return nil
+	}
+	var oldParams []localVar
+	for _, v := range old {
+		if strings.HasPrefix(v.typ, "param:") {
+			oldParams = append(oldParams, v)
+		}
+	}
+	if len(oldParams) != len(fn.Params) {
+		return nil
+	}
+	out := map[string]string{}
+	for i, p := range fn.Params {
+		if oldParams[i].typ != "param:"+typeName(p.Type()) {
+			return nil
+		}
+		if oldParams[i].name != p.Name() {
+			out[oldParams[i].name] = p.Name()
+		}
+	}
+	return out
 }
